@@ -2658,8 +2658,10 @@ fn slice_vec(v: &Xvec, start: isize, end: isize) -> Xvec {
 }
 
 fn core_word_slice(xs: &mut State) -> Xresult {
-    let end = xs.pop_data()?.to_isize()?;
-    let start = xs.pop_data()?.to_isize()?;
+    // out-of-range indices clamp, so an index beyond the machine word is as good as the nearest end
+    let clamp = |i: Xint| i.max(isize::MIN as Xint).min(isize::MAX as Xint) as isize;
+    let end = clamp(xs.pop_data()?.to_xint()?);
+    let start = clamp(xs.pop_data()?.to_xint()?);
     let indexed = xs.pop_data()?;
     let slice = match indexed.value() {
         Cell::Vector(v) => Cell::from(slice_vec(v, start, end)),
